@@ -1605,7 +1605,7 @@ func monC02(c *child.Ctx, replay json.RawMessage) {
 	pairs := map[uint64]struct{}{}
 	procsList := []int{1, 2, 4, 16}
 	hookProfiles := []string{"", "y300x2", "y100x1,s20u100", "s5u300"}
-	inCaps := []int{0, 1, 2, 64, -1}
+	inCaps := []int{0, 1, 2, 64, -1, 1500, 4096}
 	outCaps := []int{0, 1, 8}
 
 	var inputs [][]byte
